@@ -860,7 +860,7 @@ def check(run):
     run.assumptions += ['min/max-content widths, intrinsic percentages and constrainedness (preferred.py) are oracle inputs of the proved kernels; '
                         'theorems on auto layout assume 0 <= min <= max per column and table min >= spacing + sum of mins (measured on every render)',
                         'row heights / vertical placement and header/footer repetition are monitored, not proved']
-    n = 4 if thorough else 1
+    n = 8 if thorough else 1
     direct_stream(run, 'dist-direct', 'dist', gen_dist(rng, 1200 * n), coq_dist_case, DIST_T, 'dist_judge',
                   lambda c: (dist_group(c), len(c['cols']), c['start'], c['stop'], bool(c.get('alias'))),
                   'all pairs of 8 column kinds x 5 slices, then random columns (profiles steer which of the six groups exist), '
